@@ -279,14 +279,19 @@ def c11(case, obs, crash):
     if 0 not in bp:
         return f
     R0, S0 = results_of(bp[0])
-    if has_error(R0):
-        return f
+    errs = {k: has_error(results_of(bp[k])[0]) for k in bp}
+    if all(errs.values()):
+        return f            # a packet of the sequence is rejected however it is delivered
+    if errs[0] and not all(errs.values()):
+        return [(None, "the buffer delivered in one call ends in an Error, the same packets in several calls (parsers %s) decode without one"
+                 % sorted(k for k in errs if not errs[k]))]
     for k in sorted(bp):
         if k == 0:
             continue
         Rk, Sk = results_of(bp[k])
-        if has_error(Rk):
-            return f
+        if errs[k]:
+            f.append((None, "delivered as on parser %d the packets give an Error, in one call they all decode" % k))
+            continue
         d = canon.diff(R0, Rk, "R")
         if d:
             f.append((None, "one call vs partition on parser %d: %s" % (k, d)))
@@ -583,8 +588,10 @@ def c06(case, obs, crash):
                                 f.append((None, "parser %d: cache entry is not the latest definition received: %s" % (k, d)))
                     continue
                 if set(now) != set(exp[m]):
-                    f.append((None, "parser %d: %s holds ids %s, expected %s (previous + templates reported in this call)"
-                              % (k, m, sorted(now), sorted(exp[m]))))
+                    missing = sorted(set(exp[m]) - set(now))
+                    extra = sorted(set(now) - set(exp[m]))
+                    f.append((None, "parser %d: %s holds %d ids, expected %d (previous + templates reported in this call); missing %s%s, unexpected %s%s"
+                              % (k, m, len(now), len(exp[m]), missing[:8], "..." if len(missing) > 8 else "", extra[:8], "..." if len(extra) > 8 else "")))
                     continue
                 for tid in now:
                     d = canon.diff(exp[m][tid][0], now[tid][0], "%s[%d]" % (m, tid))
